@@ -252,6 +252,7 @@ def handle (op : String) (args res : List String) : Option Verdict :=
     | _, _ => .bad "parse"
   | "c13_parse" => some (structural s!"parser {args.headD ""}" res)
   | "c13_int" => some (structural s!"{args.headD ""}" res)
+  | "c13_default" => some (structural s!"default-constructed {args.headD ""}" res)
   | "c13_geoidfile" => some (structural "Geoid constructor" (res.take 1))
   | "c13_magfile" => some (structural "MagneticModel constructor" (res.take 1))
   | "c13_gravfile" => some (structural "GravityModel constructor" (res.take 1))
